@@ -166,9 +166,116 @@ pub fn shrink(ops: &[Op], fails: &mut dyn FnMut(&[Op]) -> bool, max_runs: usize)
     cur
 }
 
+/// Small-scope sweep (a workload, not another technique): every legal history up to the depth
+/// the budget allows over 3-4 ids, 1-2 labels, one datum; each shard takes one parameter set.
+/// Sequences are executed from scratch on the real code; a sequence is extended only if the pair
+/// (model state, hook snapshot) it ends in was not seen before.
+fn sweep(cfg: &ShardCfg, out: &mut ShardOut, max_depth: usize, time_share: f64) -> bool {
+    use crate::ops::HexSpec;
+    use sodg::Label;
+    let prop = cfg.prop.as_str();
+    let k = cfg.shard as usize;
+    let ids = [3usize, 4][k % 2];
+    let nl = [1usize, 2][(k / 2) % 2];
+    let n = [1usize, 2][(k / 4) % 2];
+    let cap = ids + [0usize, 2][(k / 8) % 2];
+    let labels = [Label::Alpha(0), Label::Greek('ρ')];
+    let mut alphabet: Vec<Op> = vec![];
+    for v in 0..ids {
+        alphabet.push(Op::Add(v));
+        alphabet.push(Op::Put(v, HexSpec::Canon(vec![0xAB, v as u8])));
+        alphabet.push(Op::Data(v));
+        for w in 0..ids {
+            if v != w {
+                for l in labels.iter().take(nl) {
+                    alphabet.push(Op::Bind(v, w, *l));
+                }
+            }
+        }
+    }
+    let case = Case { n, cap, profile: Profile::Classic, len: 0, seed: 1 };
+    let mut seen: std::collections::BTreeSet<(u64, u64)> = std::collections::BTreeSet::new();
+    let mut frontier: Vec<Vec<Op>> = vec![vec![]];
+    let mut sequences = 0u64;
+    let mut depth_done = 0usize;
+    let mut scratch = ShardOut::new();
+    let limit = cfg.budget_s * time_share;
+    'outer: for depth in 1..=max_depth {
+        let mut next: Vec<Vec<Op>> = vec![];
+        for seq in &frontier {
+            // legality of the last op needs the model state after `seq`
+            let mut m = crate::model::Model::new(n, cap);
+            for op in seq {
+                crate::props_script::apply_model(&mut m, op);
+            }
+            for op in &alphabet {
+                if !m.legal(op) {
+                    continue;
+                }
+                if out.started.elapsed().as_secs_f64() > limit {
+                    out.counters.inc("sweep.stopped-by-budget");
+                    break 'outer;
+                }
+                let mut cand = seq.clone();
+                cand.push(op.clone());
+                let r = run_case(prop, &case, Some(&cand), &mut scratch, &cfg.work, None);
+                sequences += 1;
+                out.calls += r.stats.calls;
+                if let Some((msg, _)) = &r.violation {
+                    let path = write_replay(
+                        cfg,
+                        &format!("sweep{sequences}"),
+                        &[
+                            ("n", n.to_string()),
+                            ("cap", cap.to_string()),
+                            ("profile", "classic".to_string()),
+                            ("seed", "1".to_string()),
+                            ("message", msg.clone()),
+                        ],
+                        &history_text(&r.ops),
+                    );
+                    out.violations.push(ViolRec {
+                        message: format!("{msg}  [small-scope sweep N={n} cap={cap} depth {depth}]"),
+                        replay: path,
+                        signature: format!("history:{}", history_show(&r.ops, 12)),
+                    });
+                    return false;
+                }
+                if r.nontrivial {
+                    out.nontrivial.insert(r.ops_hash);
+                }
+                if seen.insert(r.end_key) {
+                    next.push(cand);
+                }
+            }
+        }
+        depth_done = depth;
+        frontier = next;
+        if frontier.is_empty() {
+            break;
+        }
+    }
+    out.evaluations += sequences;
+    out.counters.add("sweep.sequences", sequences);
+    out.counters.max("sweep.max-depth-completed", depth_done as u64);
+    out.extra = J::obj()
+        .with("exhaustive_small_scope", J::obj()
+            .with("ids", J::i(ids)).with("labels", J::i(nl)).with("N", J::i(n)).with("cap", J::i(cap))
+            .with("depth_completed", J::i(depth_done))
+            .with("sequences", J::Int(i128::from(sequences)))
+            .with("distinct_states", J::i(seen.len())));
+    true
+}
+
 pub fn run_shard(cfg: &ShardCfg, out: &mut ShardOut) {
     let prop = cfg.prop.as_str();
     let mut scratch = ShardOut::new();
+    if matches!(prop, "C01" | "C02" | "C03" | "C04") {
+        let (d, share) = if cfg.thorough { (12, 0.5) } else { (9, 0.45) };
+        if !sweep(cfg, out, d, share) {
+            return;
+        }
+    }
     for j in 0..cfg.count {
         if out.out_of_time(cfg) {
             out.counters.inc("stopped-by-budget");
